@@ -4,1096 +4,14 @@
 #![allow(unused_macros, unused_imports, unused_variables, unused_mut)]
 #![allow(unstable_name_collisions)]
 
-use bnum_verif_harness::gen::{self, Rng, B};
-use bnum_verif_harness::*;
-
-// ----------------------------------------------------------------------------------------------
-// C01
-
-macro_rules! c01_same {
-    ($T:ty, $r:expr, $a:expr, $b:expr) => {{
-        let (a, b) = ($a, $b);
-        $r.sem = "C01";
-        $r.fam("add", vec![int(&a), int(&b)]);
-        $r.form("overflowing", || pairf(a.overflowing_add(b)));
-        $r.form("checked", || opt(a.checked_add(b)));
-        $r.form("wrapping", || val(a.wrapping_add(b)));
-        $r.form("saturating", || val(a.saturating_add(b)));
-        $r.form("strict", || val(a.strict_add(b)));
-        $r.form("op", || val(a + b));
-        if gen::add_fits(&a.enc(), &b.enc(), wsigned(&a)) {
-            $r.form_unsafe("unchecked", || val(unsafe { a.unchecked_add(b) }));
-        }
-        $r.fam("sub", vec![int(&a), int(&b)]);
-        $r.form("overflowing", || pairf(a.overflowing_sub(b)));
-        $r.form("checked", || opt(a.checked_sub(b)));
-        $r.form("wrapping", || val(a.wrapping_sub(b)));
-        $r.form("saturating", || val(a.saturating_sub(b)));
-        $r.form("strict", || val(a.strict_sub(b)));
-        $r.form("op", || val(a - b));
-        if gen::sub_fits(&a.enc(), &b.enc(), wsigned(&a)) {
-            $r.form_unsafe("unchecked", || val(unsafe { a.unchecked_sub(b) }));
-        }
-    }};
-}
-
-macro_rules! c01_signed_carry {
-    ($ri:expr, $ia:expr, $ib:expr, $c:expr, bnum) => {
-        $ri.ev("carrying_add", vec![int(&$ia), int(&$ib), boolean($c)], || pairf($ia.carrying_add($ib, $c)));
-        $ri.ev("borrowing_sub", vec![int(&$ia), int(&$ib), boolean($c)], || pairf($ia.borrowing_sub($ib, $c)));
-    };
-    ($ri:expr, $ia:expr, $ib:expr, $c:expr, prim) => {};
-}
-
-macro_rules! c01_pair {
-    ($U:ty, $I:ty, $ru:expr, $ri:expr, $a:expr, $b:expr, $prim:tt) => {{
-        let (ab, bb): (&B, &B) = ($a, $b);
-        let ua = <$U as Bn>::dec(ab);
-        let ub = <$U as Bn>::dec(bb);
-        let ia = <$I as Bn>::dec(ab);
-        let ib = <$I as Bn>::dec(bb);
-        c01_same!($U, $ru, ua, ub);
-        c01_same!($I, $ri, ia, ib);
-        $ru.fam("add_signed", vec![int(&ua), int(&ib)]);
-        $ru.form("overflowing", || pairf(ua.overflowing_add_signed(ib)));
-        $ru.form("checked", || opt(ua.checked_add_signed(ib)));
-        $ru.form("wrapping", || val(ua.wrapping_add_signed(ib)));
-        $ru.form("saturating", || val(ua.saturating_add_signed(ib)));
-        $ru.form("strict", || val(ua.strict_add_signed(ib)));
-        $ri.fam("add_unsigned", vec![int(&ia), int(&ub)]);
-        $ri.form("overflowing", || pairf(ia.overflowing_add_unsigned(ub)));
-        $ri.form("checked", || opt(ia.checked_add_unsigned(ub)));
-        $ri.form("wrapping", || val(ia.wrapping_add_unsigned(ub)));
-        $ri.form("saturating", || val(ia.saturating_add_unsigned(ub)));
-        $ri.form("strict", || val(ia.strict_add_unsigned(ub)));
-        $ri.fam("sub_unsigned", vec![int(&ia), int(&ub)]);
-        $ri.form("overflowing", || pairf(ia.overflowing_sub_unsigned(ub)));
-        $ri.form("checked", || opt(ia.checked_sub_unsigned(ub)));
-        $ri.form("wrapping", || val(ia.wrapping_sub_unsigned(ub)));
-        $ri.form("saturating", || val(ia.saturating_sub_unsigned(ub)));
-        $ri.form("strict", || val(ia.strict_sub_unsigned(ub)));
-        for c in [false, true] {
-            $ru.ev("carrying_add", vec![int(&ua), int(&ub), boolean(c)], || pairf(ua.carrying_add(ub, c)));
-            $ru.ev("borrowing_sub", vec![int(&ua), int(&ub), boolean(c)], || pairf(ua.borrowing_sub(ub, c)));
-            c01_signed_carry!($ri, ia, ib, c, $prim);
-        }
-        $ru.ev("abs_diff", vec![int(&ua), int(&ub)], || val(ua.abs_diff(ub)));
-        $ri.ev("abs_diff", vec![int(&ia), int(&ib)], || val(ia.abs_diff(ib)));
-        $ru.ev("midpoint", vec![int(&ua), int(&ub)], || val(ua.midpoint(ub)));
-        $ri.ev("midpoint", vec![int(&ia), int(&ib)], || val(ia.midpoint(ib)));
-    }};
-}
-
-macro_rules! c01_unary {
-    ($U:ty, $I:ty, $ru:expr, $ri:expr, $a:expr, $prim:tt) => {{
-        let ab: &B = $a;
-        let ua = <$U as Bn>::dec(ab);
-        let ia = <$I as Bn>::dec(ab);
-        $ru.sem = "C01";
-        $ri.sem = "C01";
-        $ru.fam("neg", vec![int(&ua)]);
-        $ru.form("overflowing", || pairf(ua.overflowing_neg()));
-        $ru.form("checked", || opt(ua.checked_neg()));
-        $ru.form("wrapping", || val(ua.wrapping_neg()));
-        $ru.form("strict", || val(ua.strict_neg()));
-        $ri.fam("neg", vec![int(&ia)]);
-        $ri.form("overflowing", || pairf(ia.overflowing_neg()));
-        $ri.form("checked", || opt(ia.checked_neg()));
-        $ri.form("wrapping", || val(ia.wrapping_neg()));
-        $ri.form("saturating", || val(ia.saturating_neg()));
-        $ri.form("strict", || val(ia.strict_neg()));
-        $ri.form("op", || val(-ia));
-        $ri.fam("abs", vec![int(&ia)]);
-        $ri.form("overflowing", || pairf(ia.overflowing_abs()));
-        $ri.form("checked", || opt(ia.checked_abs()));
-        $ri.form("wrapping", || val(ia.wrapping_abs()));
-        $ri.form("saturating", || val(ia.saturating_abs()));
-        $ri.form("strict", || val(ia.strict_abs()));
-        $ri.form("op", || val(ia.abs()));
-        $ri.ev("unsigned_abs", vec![int(&ia)], || val(ia.unsigned_abs()));
-    }};
-}
-
-// ----------------------------------------------------------------------------------------------
-// C02
-
-macro_rules! c02_same {
-    ($r:expr, $a:expr, $b:expr) => {{
-        let (a, b) = ($a, $b);
-        $r.sem = "C02";
-        $r.fam("mul", vec![int(&a), int(&b)]);
-        $r.form("overflowing", || pairf(a.overflowing_mul(b)));
-        $r.form("checked", || opt(a.checked_mul(b)));
-        $r.form("wrapping", || val(a.wrapping_mul(b)));
-        $r.form("saturating", || val(a.saturating_mul(b)));
-        $r.form("strict", || val(a.strict_mul(b)));
-        $r.form("op", || val(a * b));
-        if gen::mul_fits(&a.enc(), &b.enc(), wsigned(&a)) {
-            $r.form_unsafe("unchecked", || val(unsafe { a.unchecked_mul(b) }));
-        }
-    }};
-}
-macro_rules! c02_widening {
-    ($ru:expr, $ua:expr, $ub:expr, $uc:expr, bnum) => {
-        $ru.ev("widening_mul", vec![int(&$ua), int(&$ub)], || wide($ua.widening_mul($ub)));
-        $ru.ev("carrying_mul", vec![int(&$ua), int(&$ub), int(&$uc)], || wide($ua.carrying_mul($ub, $uc)));
-    };
-    ($ru:expr, $ua:expr, $ub:expr, $uc:expr, prim) => {
-        $ru.ev("carrying_mul", vec![int(&$ua), int(&$ub), int(&$uc)], || wide($ua.carrying_mul($ub, $uc)));
+macro_rules! the_matrix {
+    ($m:ident) => {
+        bnum_verif_harness::for_matrix!($m);
     };
 }
-macro_rules! c02_triple {
-    ($U:ty, $I:ty, $ru:expr, $ri:expr, $a:expr, $b:expr, $c:expr, $prim:tt) => {{
-        let ua = <$U as Bn>::dec($a);
-        let ub = <$U as Bn>::dec($b);
-        let uc = <$U as Bn>::dec($c);
-        let ia = <$I as Bn>::dec($a);
-        let ib = <$I as Bn>::dec($b);
-        c02_same!($ru, ua, ub);
-        c02_same!($ri, ia, ib);
-        c02_widening!($ru, ua, ub, uc, $prim);
-    }};
-}
-
-// ----------------------------------------------------------------------------------------------
-// C03
-
-macro_rules! c03_same {
-    ($r:expr, $a:expr, $b:expr, $prim:tt) => {{
-        let (a, b) = ($a, $b);
-        $r.sem = "C03";
-        $r.fam("div", vec![int(&a), int(&b)]);
-        $r.form("overflowing", || pairf(a.overflowing_div(b)));
-        $r.form("checked", || opt(a.checked_div(b)));
-        $r.form("wrapping", || val(a.wrapping_div(b)));
-        $r.form("saturating", || val(a.saturating_div(b)));
-        $r.form("strict", || val(a.strict_div(b)));
-        $r.form("op", || val(a / b));
-        $r.fam("rem", vec![int(&a), int(&b)]);
-        $r.form("overflowing", || pairf(a.overflowing_rem(b)));
-        $r.form("checked", || opt(a.checked_rem(b)));
-        $r.form("wrapping", || val(a.wrapping_rem(b)));
-        $r.form("strict", || val(a.strict_rem(b)));
-        $r.form("op", || val(a % b));
-        $r.fam("div_euclid", vec![int(&a), int(&b)]);
-        $r.form("overflowing", || pairf(a.overflowing_div_euclid(b)));
-        $r.form("checked", || opt(a.checked_div_euclid(b)));
-        $r.form("wrapping", || val(a.wrapping_div_euclid(b)));
-        $r.form("strict", || val(a.strict_div_euclid(b)));
-        $r.form("plain", || val(a.div_euclid(b)));
-        $r.fam("rem_euclid", vec![int(&a), int(&b)]);
-        $r.form("overflowing", || pairf(a.overflowing_rem_euclid(b)));
-        $r.form("checked", || opt(a.checked_rem_euclid(b)));
-        $r.form("wrapping", || val(a.wrapping_rem_euclid(b)));
-        $r.form("strict", || val(a.strict_rem_euclid(b)));
-        $r.form("plain", || val(a.rem_euclid(b)));
-    }};
-}
-macro_rules! c03_roundings {
-    ($r:expr, $a:expr, $b:expr) => {{
-        let (a, b) = ($a, $b);
-        $r.ev("div_floor", vec![int(&a), int(&b)], || val(a.div_floor(b)));
-        $r.ev("div_ceil", vec![int(&a), int(&b)], || val(a.div_ceil(b)));
-        $r.fam("next_multiple_of", vec![int(&a), int(&b)]);
-        $r.form("plain", || val(a.next_multiple_of(b)));
-        $r.form("checked", || opt(a.checked_next_multiple_of(b)));
-    }};
-}
-macro_rules! c03_pair {
-    ($U:ty, $I:ty, $ru:expr, $ri:expr, $a:expr, $b:expr, bnum) => {{
-        let ua = <$U as Bn>::dec($a);
-        let ub = <$U as Bn>::dec($b);
-        let ia = <$I as Bn>::dec($a);
-        let ib = <$I as Bn>::dec($b);
-        c03_same!($ru, ua, ub, bnum);
-        c03_same!($ri, ia, ib, bnum);
-        c03_roundings!($ru, ua, ub);
-        c03_roundings!($ri, ia, ib);
-    }};
-    ($U:ty, $I:ty, $ru:expr, $ri:expr, $a:expr, $b:expr, prim) => {{
-        let ua = <$U as Bn>::dec($a);
-        let ub = <$U as Bn>::dec($b);
-        let ia = <$I as Bn>::dec($a);
-        let ib = <$I as Bn>::dec($b);
-        c03_same!($ru, ua, ub, prim);
-        c03_same!($ri, ia, ib, prim);
-        // stable primitives: unsigned div_ceil / next_multiple_of only
-        $ru.ev("div_ceil", vec![int(&ua), int(&ub)], || val(ua.div_ceil(ub)));
-        $ru.fam("next_multiple_of", vec![int(&ua), int(&ub)]);
-        $ru.form("plain", || val(ua.next_multiple_of(ub)));
-        $ru.form("checked", || opt(ua.checked_next_multiple_of(ub)));
-    }};
-}
-
-// ----------------------------------------------------------------------------------------------
-// C08
-
-macro_rules! c08_pow_one {
-    ($r:expr, $a:expr, $e:expr) => {{
-        let (a, e): (_, u32) = ($a, $e);
-        $r.sem = "C08";
-        $r.fam("pow", vec![int(&a), nat(e as u128)]);
-        $r.form("overflowing", || pairf(a.overflowing_pow(e)));
-        $r.form("checked", || opt(a.checked_pow(e)));
-        $r.form("wrapping", || val(a.wrapping_pow(e)));
-        $r.form("saturating", || val(a.saturating_pow(e)));
-        $r.form("strict", || val(a.strict_pow(e)));
-        $r.form("op", || val(a.pow(e)));
-    }};
-}
-macro_rules! c08_pow {
-    ($U:ty, $I:ty, $ru:expr, $ri:expr, $a:expr, $e:expr, $prim:tt) => {{
-        let ua = <$U as Bn>::dec($a);
-        let ia = <$I as Bn>::dec($a);
-        c08_pow_one!($ru, ua, $e);
-        c08_pow_one!($ri, ia, $e);
-    }};
-}
-macro_rules! c08_log_one {
-    ($r:expr, $x:expr, $b:expr) => {{
-        let (x, b) = ($x, $b);
-        $r.sem = "C08";
-        $r.fam("ilog", vec![int(&x), int(&b)]);
-        $r.form("plain", || natv(x.ilog(b) as u128));
-        $r.form("checked", || optnat(x.checked_ilog(b).map(|v| v as u128)));
-    }};
-}
-macro_rules! c08_log {
-    ($U:ty, $I:ty, $ru:expr, $ri:expr, $x:expr, $b:expr, $prim:tt) => {{
-        let ux = <$U as Bn>::dec($x);
-        let ub = <$U as Bn>::dec($b);
-        let ix = <$I as Bn>::dec($x);
-        let ib = <$I as Bn>::dec($b);
-        c08_log_one!($ru, ux, ub);
-        c08_log_one!($ri, ix, ib);
-    }};
-}
-macro_rules! c08_log_fixed_one {
-    ($r:expr, $x:expr) => {{
-        let x = $x;
-        $r.sem = "C08";
-        $r.fam("ilog2", vec![int(&x)]);
-        $r.form("plain", || natv(x.ilog2() as u128));
-        $r.form("checked", || optnat(x.checked_ilog2().map(|v| v as u128)));
-        $r.fam("ilog10", vec![int(&x)]);
-        $r.form("plain", || natv(x.ilog10() as u128));
-        $r.form("checked", || optnat(x.checked_ilog10().map(|v| v as u128)));
-    }};
-}
-macro_rules! c08_log_fixed {
-    ($U:ty, $I:ty, $ru:expr, $ri:expr, $x:expr, $prim:tt) => {{
-        let ux = <$U as Bn>::dec($x);
-        let ix = <$I as Bn>::dec($x);
-        c08_log_fixed_one!($ru, ux);
-        c08_log_fixed_one!($ri, ix);
-    }};
-}
-
-// ----------------------------------------------------------------------------------------------
-// C04 extras: shift operators with each primitive right-hand-side type, next_power_of_two
-
-macro_rules! shift_forms {
-    ($r:expr, $x:expr, $amt:expr, $op:tt, $meth:ident; $($t:ident),*) => {{
-        let x = $x;
-        let amt: i128 = $amt;
-        $(
-            if let Ok(v) = <$t>::try_from(amt) {
-                $r.form(stringify!($t), || val(x $op v));
-            }
-        )*
-        if let Ok(v) = u32::try_from(amt) {
-            $r.form("inherent", || val(x.$meth(v)));
-        }
-    }};
-}
-macro_rules! c04_shift_one {
-    ($r:expr, $x:expr, $amt:expr, bnum) => {{
-        let x = $x;
-        $r.sem = "C04";
-        $r.fam("shl_ops", vec![int(&x), snat($amt)]);
-        shift_forms!($r, x, $amt, <<, shl; u8, u16, u32, u64, u128, usize, i8, i16, i32, i64, i128, isize);
-        $r.fam("shr_ops", vec![int(&x), snat($amt)]);
-        shift_forms!($r, x, $amt, >>, shr; u8, u16, u32, u64, u128, usize, i8, i16, i32, i64, i128, isize);
-    }};
-    ($r:expr, $x:expr, $amt:expr, prim) => {{
-        let x = $x;
-        $r.sem = "C04";
-        $r.fam("shl_ops", vec![int(&x), snat($amt)]);
-        prim_shift_forms!($r, x, $amt, <<; u8, u16, u32, u64, u128, usize, i8, i16, i32, i64, i128, isize);
-        $r.fam("shr_ops", vec![int(&x), snat($amt)]);
-        prim_shift_forms!($r, x, $amt, >>; u8, u16, u32, u64, u128, usize, i8, i16, i32, i64, i128, isize);
-    }};
-}
-macro_rules! prim_shift_forms {
-    ($r:expr, $x:expr, $amt:expr, $op:tt; $($t:ident),*) => {{
-        let x = $x;
-        let amt: i128 = $amt;
-        $(
-            if let Ok(v) = <$t>::try_from(amt) {
-                $r.form(stringify!($t), || val(x $op std::hint::black_box(v)));
-            }
-        )*
-    }};
-}
-macro_rules! c04_shift {
-    ($U:ty, $I:ty, $ru:expr, $ri:expr, $x:expr, $amt:expr, $prim:tt) => {{
-        let ux = <$U as Bn>::dec($x);
-        let ix = <$I as Bn>::dec($x);
-        c04_shift_one!($ru, ux, $amt, $prim);
-        c04_shift_one!($ri, ix, $amt, $prim);
-    }};
-}
-macro_rules! c04_npot {
-    ($U:ty, $ru:expr, $x:expr, bnum) => {{
-        let ux = <$U as Bn>::dec($x);
-        $ru.sem = "C04";
-        $ru.fam("next_power_of_two", vec![int(&ux)]);
-        $ru.form("plain", || val(ux.next_power_of_two()));
-        $ru.form("checked", || opt(ux.checked_next_power_of_two()));
-        $ru.form("wrapping", || val(ux.wrapping_next_power_of_two()));
-    }};
-    ($U:ty, $ru:expr, $x:expr, prim) => {{
-        let ux = <$U as Bn>::dec($x);
-        $ru.sem = "C04";
-        $ru.fam("next_power_of_two", vec![int(&ux)]);
-        $ru.form("plain", || val(ux.next_power_of_two()));
-        $ru.form("checked", || opt(ux.checked_next_power_of_two()));
-    }};
-}
-
-// ----------------------------------------------------------------------------------------------
-// inputs
-
-#[derive(Default)]
-struct Inputs {
-    vals: Vec<B>,
-    pairs: Vec<(B, B)>,
-    mul: Vec<(B, B, B)>,
-    div: Vec<(B, B)>,
-    pow: Vec<(B, u32)>,
-    log: Vec<(B, B)>,
-    logx: Vec<B>,
-    shifts: Vec<(B, i128)>,
-    npot: Vec<B>,
-}
-
-fn with_negs(v: &mut Vec<(B, B)>, a: B, b: B) {
-    v.push((gen::negate(&a), b.clone()));
-    v.push((a.clone(), gen::negate(&b)));
-    v.push((gen::negate(&a), gen::negate(&b)));
-    v.push((a, b));
-}
-
-fn mul_inputs(r: &mut Rng, n: usize, count: usize) -> Vec<(B, B, B)> {
-    let w = 8 * n;
-    let bnd = gen::boundary(n);
-    let mut p: Vec<(B, B)> = Vec::new();
-    let corners = [gen::zero(n), gen::small(n, 1), gen::ones(n), gen::smin(n), gen::smax(n), gen::small(n, 2)];
-    for a in corners.iter() {
-        for b in corners.iter() {
-            p.push((a.clone(), b.clone()));
-        }
-    }
-    // products at / just below / just above 2^W and 2^(W-1): (2^k + d1) * (2^(W-k) + d2)
-    let ks: Vec<usize> = if count >= 500 { (1..w).collect() } else { (0..6).map(|_| 1 + r.below(w as u64 - 1) as usize).collect() };
-    for k in ks {
-        for top in [w, w - 1] {
-            if k >= top {
-                continue;
-            }
-            let a0 = gen::pow2(n, k);
-            let b0 = gen::pow2(n, top - k);
-            let d = r.below(3);
-            let a = match d {
-                0 => a0.clone(),
-                1 => gen::sub1(&a0),
-                _ => gen::add1(&a0),
-            };
-            let b = match r.below(3) {
-                0 => b0.clone(),
-                1 => gen::sub1(&b0),
-                _ => gen::add1(&b0),
-            };
-            with_negs(&mut p, a, b);
-        }
-    }
-    // a * (LIMIT div a) and a * (LIMIT div a + 1) for LIMIT in {2^W - 1, 2^(W-1) - 1, 2^(W-1)}
-    let na = if count >= 500 { 40 } else { 4 };
-    for _ in 0..na {
-        let mut a = gen::short(r, n);
-        if r.below(2) == 0 {
-            a = gen::small(n, 2 + r.below(300));
-        }
-        if a.iter().all(|x| *x == 0) {
-            continue;
-        }
-        let a = gen::fit(&gen::trim(a.iter().map(|x| *x).collect()), n);
-        if a.iter().all(|x| *x == 0) || a[n - 1] & 0x80 != 0 {
-            continue;
-        }
-        for lim in [gen::ones(n), gen::smax(n), gen::smin(n)] {
-            let (q, _) = gen::udivrem(&lim, &gen::trim(a.clone()));
-            let q = gen::fit(&q, n);
-            with_negs(&mut p, a.clone(), q.clone());
-            with_negs(&mut p, a.clone(), gen::add1(&q));
-        }
-    }
-    // bit lengths adding up to W - 2 .. W + 1 with random mantissas, including both operands at exactly half the
-    // width: the band where overflow estimates made from leading_zeros are off by one (unsigned and signed limits)
-    for total in [w, w - 1] {
-        for (a, b) in gen::bitlen_pairs(r, n, total, if count >= 500 { 40 } else { 12 }) {
-            if r.below(2) == 0 {
-                with_negs(&mut p, a, b);
-            } else {
-                p.push((a, b));
-            }
-        }
-    }
-    // only the top digit of one operand and a low digit of the other (overflow only through the index test)
-    for g in [1usize, 2, 4, 8] {
-        if g >= n {
-            continue;
-        }
-        let nd = n / g;
-        let i = r.below(nd as u64) as usize;
-        let j = nd - i.min(nd);
-        for jj in [j.saturating_sub(1), j.min(nd - 1)] {
-            let mut a = gen::zero(n);
-            let mut b = gen::zero(n);
-            a[i * g] = 1 + r.below(255) as u8;
-            b[(jj.min(nd - 1)) * g] = 1 + r.below(255) as u8;
-            p.push((a, b));
-        }
-    }
-    while p.len() < count {
-        let a = gen::any(r, n, &bnd);
-        let b = match r.below(4) {
-            0 => gen::short(r, n),
-            1 => gen::small(n, r.below(1000)),
-            _ => gen::any(r, n, &bnd),
-        };
-        p.push((a, b));
-    }
-    let mut out: Vec<(B, B, B)> = p
-        .into_iter()
-        .map(|(a, b)| {
-            let c = match r.below(4) {
-                0 => gen::ones(n),
-                1 => gen::zero(n),
-                _ => gen::any(r, n, &bnd),
-            };
-            (a, b, c)
-        })
-        .collect();
-    // MAX * 2^g: the high half is 2^g - 1 (its lowest digit all ones at digit size g) and the low half + carry wraps
-    for g in [8usize, 16, 32, 64] {
-        if g < 8 * n {
-            let p = gen::pow2(n, g);
-            for c in [gen::ones(n), p.clone(), gen::sub1(&p), gen::add1(&p)] {
-                out.push((gen::ones(n), p.clone(), c.clone()));
-                out.push((p.clone(), gen::ones(n), c.clone()));
-                out.push((gen::sub1(&gen::ones(n)), p.clone(), c));
-            }
-        }
-    }
-    out
-}
-
-fn div_inputs(r: &mut Rng, n: usize, count: usize) -> Vec<(B, B)> {
-    let bnd = gen::boundary(n);
-    let mut p: Vec<(B, B)> = Vec::new();
-    let corners = [gen::zero(n), gen::small(n, 1), gen::ones(n), gen::smin(n), gen::smax(n), gen::small(n, 2), gen::add1(&gen::smin(n))];
-    for a in corners.iter() {
-        for b in corners.iter() {
-            p.push((a.clone(), b.clone()));
-        }
-    }
-    // at 128 and 256 bits (two and four u64 digits; 4 to 32 digits of the narrower types): a bulk of divisions whose
-    // operands consist of runs of ones at 32- and 64-bit granularity.  Estimate-and-correct division steps built
-    // on half digits or on the top digits take their rare branches about once per thousand such operands.
-    if n == 16 || n == 32 {
-        let bulk = if count >= 1000 { 6000 } else { 1500 };
-        for k in 0..bulk {
-            let g = if k % 2 == 0 { 4 } else { 8 };
-            let a = gen::runs(r, n, g);
-            let dl = g * (1 + r.below((n / g) as u64) as usize);
-            let b = gen::fit(&gen::runs(r, dl, g), n);
-            p.push((a, b));
-        }
-    }
-    let want = count + p.len().saturating_sub(50);
-    while p.len() < want {
-        match r.below(10) {
-            // extreme-digit dividend, extreme-digit divisor shorter by 0..n-1 bytes
-            0..=3 => {
-                let a = gen::extreme(r, n);
-                let m = 1 + r.below(n as u64) as usize;
-                let b = gen::fit(&gen::extreme(r, m), n);
-                with_negs(&mut p, a, b);
-            }
-            // exact multiples and their neighbours
-            4..=5 => {
-                let m = 1 + r.below(n as u64) as usize;
-                let d = gen::trim(gen::extreme(r, m));
-                if d.is_empty() {
-                    continue;
-                }
-                let ql = n - d.len();
-                if ql == 0 {
-                    continue;
-                }
-                let q = gen::extreme(r, ql);
-                let prod = gen::fit(&gen::umul(&q, &d), n);
-                let d = gen::fit(&d, n);
-                p.push((prod.clone(), d.clone()));
-                p.push((gen::add1(&prod), d.clone()));
-                p.push((gen::sub1(&prod), d.clone()));
-                p.push((gen::negate(&prod), d.clone()));
-                p.push((prod, gen::negate(&d)));
-            }
-            // quotient-digit estimation stress: equal leading digits of remainder and divisor
-            6 => {
-                let g = *r.pick(&[1usize, 2, 4, 8]);
-                if 2 * g >= n {
-                    continue;
-                }
-                let dl = g * (2 + r.below(((n / g) as u64).saturating_sub(2).max(1)) as usize).min(n / g - 1);
-                if dl < 2 * g || dl >= n {
-                    continue;
-                }
-                let mut d = gen::extreme(r, dl);
-                d[dl - 1] |= 0x80; // already normalised top bit in many draws
-                let mut a = gen::extreme(r, n);
-                // copy the divisor's top digit into the dividend one digit higher
-                for k in 0..g {
-                    if dl + k < n {
-                        a[dl + k] = d[dl - g + k];
-                    }
-                }
-                for k in (dl + g)..n {
-                    a[k] = 0;
-                }
-                p.push((a, gen::fit(&d, n)));
-            }
-            7 => {
-                if r.below(2) == 0 {
-                    let a = gen::any(r, n, &bnd);
-                    p.push((a, gen::small(n, 1 + r.below(300))));
-                } else {
-                    // exact multiples q * d (and q * d +- 1) of a divisor with exactly two or three digits at a
-                    // granularity, random mantissas: the quotient-digit corrections compare against the top two
-                    // divisor digits, and an exact multiple makes those comparisons ties
-                    let g = *r.pick(&[1usize, 2, 4, 8]);
-                    let dl = g * (2 + r.below(2) as usize);
-                    if dl < n {
-                        let mut d = gen::random(r, dl);
-                        if r.below(2) == 0 {
-                            d = gen::extreme(r, dl);
-                        }
-                        d[dl - 1] |= 1; // top digit non-zero
-                        let d = gen::trim(d);
-                        let ql = n - d.len();
-                        if ql > 0 && !d.is_empty() {
-                            let q = if r.below(2) == 0 { gen::random(r, ql) } else { gen::extreme(r, ql) };
-                            let prod = gen::fit(&gen::umul(&gen::trim(q), &d), n);
-                            let d = gen::fit(&d, n);
-                            p.push((prod.clone(), d.clone()));
-                            p.push((gen::add1(&prod), d.clone()));
-                            p.push((gen::sub1(&prod), d.clone()));
-                        }
-                    }
-                }
-            }
-            _ => {
-                let a = gen::any(r, n, &bnd);
-                let b = gen::any(r, n, &bnd);
-                p.push((a, b));
-            }
-        }
-    }
-    p
-}
-
-fn pow_inputs(r: &mut Rng, n: usize, count: usize) -> Vec<(B, u32)> {
-    let w = (8 * n) as u32;
-    let mut v: Vec<(B, u32)> = Vec::new();
-    let bases = [
-        gen::zero(n),
-        gen::small(n, 1),
-        gen::small(n, 2),
-        gen::small(n, 3),
-        gen::small(n, 10),
-        gen::ones(n),
-        gen::negate(&gen::small(n, 2)),
-        gen::negate(&gen::small(n, 3)),
-        gen::smin(n),
-        gen::smax(n),
-    ];
-    let exps = [0u32, 1, 2, 3, w - 1, w, w + 1];
-    for b in bases.iter() {
-        for e in exps.iter() {
-            v.push((b.clone(), *e));
-        }
-    }
-    // powers of two: (+-2^j)^e with j*e around W-1 and W
-    let js: Vec<u32> = if count >= 400 { (1..w.min(70)).collect() } else { (0..5).map(|_| 1 + r.below(w.min(70) as u64 - 1) as u32).collect() };
-    for j in js {
-        for target in [w - 1, w] {
-            let e0 = target / j;
-            for e in [e0.saturating_sub(1), e0, e0 + 1] {
-                if (j as u64) * (e as u64) <= (w as u64) + (j as u64) {
-                    let b = gen::pow2(n, j as usize);
-                    v.push((b.clone(), e));
-                    v.push((gen::negate(&b), e));
-                }
-            }
-        }
-    }
-    // power-of-two bases with exponents where (log2 base) * exponent leaves the u32 range
-    for j in [1u32, 2, 3, 4, 8, 16, 32, w / 2, w - 1] {
-        if j == 0 || j >= w {
-            continue;
-        }
-        let q = ((1u64 << 32) / j as u64) as u32;
-        let cands = [q, q.wrapping_add(1), q.wrapping_sub(1), 1u32 << 31, u32::MAX, (1u32 << 31) + 1];
-        let take = if count >= 400 { cands.len() } else { 2 };
-        for _ in 0..take {
-            let e = *r.pick(&cands);
-            let b = gen::pow2(n, j as usize);
-            v.push((b.clone(), e));
-            if r.below(2) == 0 {
-                v.push((gen::negate(&b), e));
-            }
-        }
-    }
-    // exponents at the order of the unit group mod 2^W (2^(W-2)) and around it, odd bases: narrow types only
-    if w <= 32 {
-        let lam: u64 = 1u64 << (w - 2);
-        for e in [lam, lam * 2, lam * 3, lam + 1, lam - 1, lam * 4] {
-            if e <= u32::MAX as u64 {
-                for b in [gen::small(n, 3), gen::small(n, 5), gen::negate(&gen::small(n, 3)), gen::ones(n), gen::add1(&gen::pow2(n, 4 * n))] {
-                    v.push((b, e as u32));
-                }
-            }
-        }
-    }
-    // half-width bases squared / cubed
-    let h = gen::pow2(n, (4 * n) as usize);
-    for b in [h.clone(), gen::sub1(&h), gen::add1(&h), gen::negate(&h), gen::add1(&gen::negate(&h))] {
-        v.push((b.clone(), 2));
-        v.push((b, 3));
-    }
-    // huge exponents (parity matters for the sign; wrapped value by modular arithmetic)
-    let huge = [31u32, 32, 33, 63, 64, 65, 1 << 16, (1 << 31) - 1, 1 << 31, u32::MAX - 1, u32::MAX];
-    let nh = if n > 32 { 2 } else if count >= 400 { huge.len() } else { 4 };
-    for _ in 0..nh {
-        let e = *r.pick(&huge);
-        let b = match r.below(5) {
-            0 => gen::small(n, 3),
-            1 => gen::ones(n),
-            2 => gen::negate(&gen::small(n, 3)),
-            3 => gen::small(n, 2),
-            _ => gen::short(r, n),
-        };
-        v.push((b, e));
-    }
-    // bases odd * 2^t with t * e just past 2^32 (and past 2^33): shift amounts formed as t * e overflow a u32 there,
-    // while the true wrapped power is 0 and the true overflow flag is set
-    for t in [1u64, 2, 3, 4, 6, 8, 12, 16] {
-        if count < 400 && r.below(3) != 0 {
-            continue;
-        }
-        if t + 2 >= w as u64 {
-            continue;
-        }
-        let odd = 3 + 2 * r.below(6);
-        let base = gen::fit(&gen::trim(((odd as u128) << t).to_le_bytes()[..n.min(16)].to_vec()), n);
-        for top in [1u64 << 32, 1u64 << 33] {
-            for d in [0u64, r.below(w as u64), w as u64 - 1, w as u64] {
-                let te = top + d;
-                let e = te / t + if te % t == 0 { 0 } else { 1 }; // least e with t * e >= top + d
-                if e <= u32::MAX as u64 {
-                    v.push((base.clone(), e as u32));
-                    if r.below(3) == 0 {
-                        v.push((gen::negate(&base), e as u32));
-                    }
-                }
-            }
-        }
-    }
-    let bnd = gen::boundary(n);
-    while v.len() < count {
-        let b = match r.below(3) {
-            0 => gen::small(n, r.below(40)),
-            1 => gen::negate(&gen::small(n, r.below(40))),
-            _ => {
-                let m = n.min(1 + (r.below(3) as usize));
-                gen::fit(&gen::short(r, m), n)
-            }
-        };
-        let e = r.below(2 * w as u64 / 3 + 4) as u32;
-        v.push((b, e));
-    }
-    let _ = bnd;
-    v
-}
-
-fn log_inputs(r: &mut Rng, n: usize, count: usize) -> (Vec<(B, B)>, Vec<B>) {
-    let mut v: Vec<(B, B)> = Vec::new();
-    let mut xs: Vec<B> = Vec::new();
-    let h = gen::pow2(n, 4 * n);
-    let mut bases = vec![gen::small(n, 2), gen::small(n, 3), gen::small(n, 10), gen::small(n, 7), gen::sub1(&h), gen::add1(&h), gen::smax(n), gen::ones(n),
-        gen::small(n, 4), gen::small(n, 16), gen::pow2(n, 2 * n)];
-    bases.push(gen::small(n, 2 + r.below(250)));
-    let bad = [gen::zero(n), gen::small(n, 1), gen::negate(&gen::small(n, 2)), gen::smin(n)];
-    for b in bases.iter() {
-        // x in {b^k - 1, b^k, b^k + 1}
-        let tb = gen::trim(b.clone());
-        let mut p = gen::small(n, 1);
-        let mut k = 0;
-        let step = if count >= 400 { 1 } else { 1 + r.below(4) as usize };
-        loop {
-            if k % step == 0 || k < 3 {
-                v.push((p.clone(), b.clone()));
-                v.push((gen::sub1(&p), b.clone()));
-                v.push((gen::add1(&p), b.clone()));
-            }
-            let q = gen::umul(&p, &tb);
-            if q[n..].iter().any(|x| *x != 0) || tb.len() == 0 {
-                break;
-            }
-            p = q[..n].to_vec();
-            k += 1;
-            if k > 8 * n {
-                break;
-            }
-        }
-        v.push((gen::ones(n), b.clone()));
-        v.push((gen::smax(n), b.clone()));
-        v.push((gen::smin(n), b.clone()));
-    }
-    for b in bad.iter() {
-        for x in [gen::small(n, 5), gen::zero(n), gen::ones(n), gen::smax(n)] {
-            v.push((x, b.clone()));
-        }
-    }
-    // ilog2 / ilog10 arguments
-    for k in 0..(8 * n) {
-        if count >= 400 || k % 7 == (r.0 % 7) as usize || k < 3 || k + 2 >= 8 * n {
-            let p = gen::pow2(n, k);
-            xs.push(p.clone());
-            xs.push(gen::sub1(&p));
-            xs.push(gen::add1(&p));
-        }
-    }
-    let ten = vec![10u8];
-    let mut p = gen::small(n, 1);
-    loop {
-        xs.push(p.clone());
-        xs.push(gen::sub1(&p));
-        xs.push(gen::add1(&p));
-        let q = gen::umul(&p, &ten);
-        if q[n..].iter().any(|x| *x != 0) {
-            break;
-        }
-        p = q[..n].to_vec();
-    }
-    xs.push(gen::zero(n));
-    xs.push(gen::ones(n));
-    xs.push(gen::smin(n));
-    xs.push(gen::smax(n));
-    (v, xs)
-}
-
-fn shift_inputs(r: &mut Rng, n: usize, count: usize) -> Vec<(B, i128)> {
-    let w = (8 * n) as i128;
-    let bnd = gen::boundary(n);
-    let mut amts: Vec<i128> = vec![0, 1, 7, 8, 9, w - 1, w, w + 1, 2 * w - 1, 2 * w, -1, -8, -w, 255, 256, 65535, 65536, 127, 128, -128, -129,
-        i32::MAX as i128, i32::MIN as i128, u32::MAX as i128, u32::MAX as i128 + 1, u32::MAX as i128 + 1 + 3, i64::MAX as i128, i64::MIN as i128, u64::MAX as i128, i128::MAX, i128::MIN,
-        (1i128 << 32) + w - 1, (1i128 << 64) + 1, w / 2, 31, 32, 33, 63, 64, 65];
-    let mut v = Vec::new();
-    let xs = [gen::ones(n), gen::small(n, 1), gen::smin(n), gen::smax(n)];
-    for a in amts.iter() {
-        let x = if r.below(3) == 0 { gen::any(r, n, &bnd) } else { r.pick(&xs).clone() };
-        v.push((x, *a));
-    }
-    while v.len() < count {
-        let x = gen::any(r, n, &bnd);
-        let a = match r.below(4) {
-            0 => r.below(2 * w as u64 + 2) as i128,
-            1 => -(r.below(w as u64 + 2) as i128),
-            2 => (r.below(w as u64) as i128) + ((r.below(4) as i128) << 32),
-            _ => r.below(w as u64) as i128,
-        };
-        v.push((x, a));
-    }
-    v
-}
-
-fn npot_inputs(r: &mut Rng, n: usize, count: usize) -> Vec<B> {
-    let mut v = vec![gen::zero(n), gen::small(n, 1), gen::small(n, 2), gen::small(n, 3), gen::ones(n), gen::smin(n), gen::add1(&gen::smin(n)), gen::sub1(&gen::smin(n)), gen::smax(n)];
-    for k in 0..(8 * n) {
-        if count >= 300 || r.below(6) == 0 || k % 8 == 7 {
-            let p = gen::pow2(n, k);
-            v.push(p.clone());
-            v.push(gen::sub1(&p));
-            v.push(gen::add1(&p));
-        }
-    }
-    let bnd = gen::boundary(n);
-    while v.len() < count {
-        v.push(gen::any(r, n, &bnd));
-    }
-    v
-}
-
-/// a handful of operands for the 2080- and 8192-bit types: dense bytes near 0xff, MAX, powers of ten
-fn giant_inputs(prop: &str, seed: u64, w: u32, thorough: bool) -> Inputs {
-    let n = (w / 8) as usize;
-    let mut r = Rng::new(seed ^ ((w as u64) << 32) ^ 0x61a47);
-    let mut i = Inputs::default();
-    let k = if thorough { 12 } else { 3 };
-    let dense = |r: &mut Rng| -> B { (0..n).map(|_| 0xf0 | (r.next() & 0x0f) as u8).collect() };
-    match prop {
-        "C01" | "C04" => {
-            i.pairs = vec![(gen::ones(n), gen::small(n, 1)), (gen::smax(n), gen::smax(n)), (gen::smin(n), gen::ones(n))];
-            for _ in 0..k {
-                i.pairs.push((gen::extreme(&mut r, n), gen::extreme(&mut r, n)));
-            }
-            i.vals = vec![gen::smin(n), gen::ones(n), gen::random(&mut r, n)];
-        }
-        "C02" => {
-            i.mul = vec![(gen::ones(n), gen::ones(n), gen::ones(n)), (gen::smin(n), gen::ones(n), gen::zero(n))];
-            for _ in 0..k {
-                i.mul.push((dense(&mut r), dense(&mut r), gen::random(&mut r, n)));
-                let h = gen::fit(&gen::random(&mut r, n / 2), n);
-                i.mul.push((h.clone(), gen::fit(&dense(&mut r)[..n / 2].to_vec(), n), gen::ones(n)));
-            }
-        }
-        "C03" => {
-            i.div = vec![(gen::ones(n), gen::small(n, 3)), (gen::smin(n), gen::ones(n))];
-            for _ in 0..k {
-                let m = n / 2 + r.below((n / 2) as u64) as usize;
-                i.div.push((gen::extreme(&mut r, n), gen::fit(&gen::extreme(&mut r, m), n)));
-                i.div.push((dense(&mut r), gen::fit(&dense(&mut r)[..m].to_vec(), n)));
-            }
-        }
-        "C08" => {
-            // ilog10 at and next to powers of ten over the whole width
-            let ten = vec![10u8];
-            let mut p = gen::small(n, 1);
-            let mut kk = 0u32;
-            // (every power at 2080 bits; at 8192 bits the logarithms of 1024-digit values cost ~0.5 s per value in a
-            // debug build, so a rotating 1/16 (thorough) or 1/61 (quick) of the 2466 powers)
-            let step = if w <= 2080 { 1 } else if thorough { 16 } else { 61 };
-            let off = (seed % step as u64) as u32;
-            loop {
-                if kk % step == off || kk < 2 {
-                    i.logx.push(p.clone());
-                    i.logx.push(gen::sub1(&p));
-                }
-                let q = gen::umul(&p, &ten);
-                if q[n..].iter().any(|x| *x != 0) || q[n - 1] & 0x80 != 0 {
-                    break;
-                }
-                p = q[..n].to_vec();
-                kk += 1;
-            }
-            i.logx.push(gen::ones(n));
-            i.logx.push(gen::smax(n));
-            i.pow = vec![(gen::small(n, 3), w / 2), (gen::small(n, 2), w - 1), (gen::small(n, 2), w), (gen::negate(&gen::small(n, 2)), w - 1), (gen::small(n, 10), 600), (gen::small(n, 7), u32::MAX)];
-            i.log = vec![(gen::ones(n), gen::small(n, 3)), (gen::smax(n), gen::small(n, 7))];
-        }
-        _ => {}
-    }
-    i
-}
-
-fn inputs(prop: &str, seed: u64, w: u32, thorough: bool) -> Inputs {
-    if w > 1024 {
-        return giant_inputs(prop, seed, w, thorough);
-    }
-    let n = (w / 8) as usize;
-    let mut r = Rng::new(seed ^ ((w as u64) << 32) ^ (prop.as_bytes()[2] as u64 * 131 + prop.as_bytes()[1] as u64));
-    let mut i = Inputs::default();
-    if thorough && w == 8 {
-        // thorough tier: the 8-bit types completely -- every operand pair of every family
-        let all: Vec<B> = (0..=255u8).map(|v| vec![v]).collect();
-        let all_pairs: Vec<(B, B)> = all.iter().flat_map(|a| all.iter().map(move |b| (a.clone(), b.clone()))).collect();
-        match prop {
-            "C01" => {
-                i.vals = all.clone();
-                i.pairs = all_pairs;
-            }
-            "C02" => {
-                i.mul = all_pairs.into_iter().map(|(a, b)| { let c = vec![a[0].wrapping_mul(7) ^ b[0].wrapping_mul(13)]; (a, b, c) }).collect();
-            }
-            "C03" => {
-                i.div = all_pairs;
-            }
-            "C08" => {
-                i.pow = all.iter().flat_map(|a| (0..=10u32).chain([15, 16, 17, 31, 32, 33, 255, 256, u32::MAX]).map(move |e| (a.clone(), e))).collect();
-                i.log = all_pairs;
-                i.logx = all.clone();
-            }
-            "C04" => {
-                i.vals = all.clone();
-                i.pairs = all_pairs.iter().step_by(7).cloned().collect();
-                i.mul = all_pairs.iter().step_by(5).map(|(a, b)| (a.clone(), b.clone(), vec![a[0] ^ b[0]])).collect();
-                i.div = all_pairs.iter().step_by(3).cloned().collect();
-                i.pow = all.iter().flat_map(|a| [0u32, 1, 2, 3, 7, 8, 9].into_iter().map(move |e| (a.clone(), e))).collect();
-                i.log = all_pairs.iter().step_by(11).cloned().collect();
-                i.logx = all.clone();
-                i.shifts = all.iter().flat_map(|a| (-2i128..=18).map(move |k| (a.clone(), k))).collect();
-                i.npot = all.clone();
-            }
-            _ => panic!("unknown property"),
-        }
-        return i;
-    }
-    if thorough && w == 16 && prop == "C01" {
-        // every 16-bit value for the unary families (neg, abs, ...) on top of the sampled pairs
-        i.vals = (0..=65535u32).map(|v| vec![v as u8, (v >> 8) as u8]).collect();
-        i.pairs = gen::pairs(&mut r, n, 1500);
-        return i;
-    }
-    // very wide types get fewer quadratic-cost events: TLC's exact products cost ~n^2
-    let scale = |q: usize, t: usize| -> usize {
-        let base = if thorough { t } else { q };
-        if n >= 128 {
-            base / 4
-        } else if n >= 64 {
-            base / 2
-        } else {
-            base
-        }
-    };
-    match prop {
-        "C01" => {
-            i.vals = gen::values(&mut r, n, if thorough { 400 } else { 40 });
-            i.pairs = gen::pairs(&mut r, n, if thorough { 1500 } else { 120 });
-        }
-        "C02" => {
-            i.mul = mul_inputs(&mut r, n, scale(260, 1600));
-        }
-        "C03" => {
-            i.div = div_inputs(&mut r, n, scale(260, 1600));
-        }
-        "C08" => {
-            i.pow = pow_inputs(&mut r, n, scale(110, 600));
-            let (l, x) = log_inputs(&mut r, n, scale(100, 600));
-            i.log = l;
-            i.logx = x;
-        }
-        "C04" => {
-            i.vals = gen::values(&mut r, n, if thorough { 60 } else { 12 });
-            i.pairs = gen::pairs(&mut r, n, if thorough { 200 } else { 30 });
-            i.mul = mul_inputs(&mut r, n, scale(45, 300));
-            i.div = div_inputs(&mut r, n, scale(55, 300));
-            i.pow = pow_inputs(&mut r, n, scale(90, 200));
-            let (l, x) = log_inputs(&mut r, n, 40);
-            // the panic side completely (zero / negative arguments, bases below 2), a third of the rest
-            let lim = gen::small(n, 2);
-            i.log = l
-                .into_iter()
-                .enumerate()
-                .filter(|(k, (x, b))| {
-                    let xz = x.iter().all(|v| *v == 0) || x[n - 1] & 0x80 != 0;
-                    let bb = b[n - 1] & 0x80 != 0 || gen::ucmp(b, &lim) == std::cmp::Ordering::Less;
-                    xz || bb || k % 3 == 0
-                })
-                .map(|(_, p)| p)
-                .collect();
-            i.logx = x.into_iter().step_by(5).collect();
-            i.shifts = shift_inputs(&mut r, n, if thorough { 200 } else { 50 });
-            i.npot = npot_inputs(&mut r, n, if thorough { 300 } else { 30 });
-        }
-        _ => panic!("unknown property"),
-    }
-    i
-}
-
-// ----------------------------------------------------------------------------------------------
-
-macro_rules! run_all {
-    (@go $prim:tt, $imp:literal, $w:literal; $(($U:ty, $I:ty)),+) => {
-        CTX.with(|c| {
-            let mut c = c.borrow_mut();
-            let c = c.as_mut().unwrap();
-            if c.cli.only_width.map_or(true, |x| x == $w) {
-                let inp = inputs(&c.cli.prop, c.cli.seed, $w, c.cli.tier == "thorough");
-                let mut us: Vec<(&'static str, Rec)> = Vec::new();
-                let mut is: Vec<(&'static str, Rec)> = Vec::new();
-                $(
-                    {
-                        let mut ru = Rec::new();
-                        let mut ri = Rec::new();
-                        for (a, b) in inp.pairs.iter() {
-                            c01_pair!($U, $I, ru, ri, a, b, $prim);
-                        }
-                        for a in inp.vals.iter() {
-                            c01_unary!($U, $I, ru, ri, a, $prim);
-                        }
-                        for (a, b, cc) in inp.mul.iter() {
-                            c02_triple!($U, $I, ru, ri, a, b, cc, $prim);
-                        }
-                        for (a, b) in inp.div.iter() {
-                            c03_pair!($U, $I, ru, ri, a, b, $prim);
-                        }
-                        for (a, e) in inp.pow.iter() {
-                            c08_pow!($U, $I, ru, ri, a, *e, $prim);
-                        }
-                        for (x, b) in inp.log.iter() {
-                            c08_log!($U, $I, ru, ri, x, b, $prim);
-                        }
-                        for x in inp.logx.iter() {
-                            c08_log_fixed!($U, $I, ru, ri, x, $prim);
-                        }
-                        for (x, a) in inp.shifts.iter() {
-                            c04_shift!($U, $I, ru, ri, x, *a, $prim);
-                        }
-                        for x in inp.npot.iter() {
-                            c04_npot!($U, ru, x, $prim);
-                        }
-                        us.push((<$U as Bn>::DT, ru));
-                        is.push((<$I as Bn>::DT, ri));
-                    }
-                )+
-                c.sink.merge($w, false, $imp, us);
-                c.sink.merge($w, true, $imp, is);
-            }
-        });
+macro_rules! the_giants {
+    ($m:ident) => {
+        bnum_verif_harness::for_giants!($m);
     };
 }
-macro_rules! run_bnum {
-    ($w:literal; $(($U:ty, $I:ty)),+) => { run_all!(@go bnum, "bnum", $w; $(($U, $I)),+); };
-}
-macro_rules! run_prim {
-    ($w:literal; $(($U:ty, $I:ty)),+) => { run_all!(@go prim, "prim", $w; $(($U, $I)),+); };
-}
-
-struct Ctx {
-    cli: Cli,
-    sink: Sink,
-}
-thread_local! {
-    static CTX: std::cell::RefCell<Option<Ctx>> = std::cell::RefCell::new(None);
-}
-
-fn main() {
-    install_hook();
-    let cli = parse_cli();
-    let prop = cli.prop.clone();
-    let sink = Sink::new(&cli.out, &prop);
-    let prims = cli.extra.iter().any(|x| x == "--prims");
-    CTX.with(|c| *c.borrow_mut() = Some(Ctx { cli, sink }));
-    if prims {
-        for_prims!(run_prim);
-    } else {
-        for_matrix!(run_bnum);
-        for_giants!(run_bnum);
-    }
-    let ctx = CTX.with(|c| c.borrow_mut().take().unwrap());
-    let (n, splits) = ctx.sink.finish();
-    eprintln!("recorded {} events, {} digit-type splits, mode {}", n, splits, MODE);
-}
+include!("../drv/arith.rs");
